@@ -2031,8 +2031,9 @@ func (a *align) Compress() (weights []int) {
 	npat = 0
 	r.Walk(func(pattern string, count interface{}) bool {
 		weights[npat] = count.(*struct{ count int }).count
-		for seq, c := range pattern {
-			a.seqs[seq].sequence[npat] = uint8(c)
+		// byte by byte: ranging over the string would decode UTF-8 runes
+		for seq := 0; seq < len(pattern); seq++ {
+			a.seqs[seq].sequence[npat] = pattern[seq]
 		}
 		npat++
 		return false
